@@ -44,7 +44,8 @@
    function for the callers whose thread waits for nobody (a branch that would need the
    cancellation there sets [ub]); the string dictionary, the event queue and script variables
    are not modelled (except the level variables r<k>, weak references to threads, through which
-   one thread applies wait / waitframe / pause to another one); a thread is an abstract program.  Loops carry fuel; running out of fuel
+   one thread applies wait / waitframe / pause to another one, and a few integer variables of
+   level / game / parm, which outlive their threads but not a Reset); a thread is an abstract program.  Loops carry fuel; running out of fuel
    sets the sticky flag [oof].  NO proofs in this file. *)
 From Coq Require Import NArith List Bool.
 From Morfuse Require Import Base.Arr.
@@ -62,7 +63,10 @@ Inductive instr :=
 | IPause                         (* pause *)
 | IXWait (k d : N)               (* level.r<k> wait d: ScriptThread::EventWait applied to THAT thread *)
 | IXWaitFrame (k : N)            (* level.r<k> waitframe: Wait(GetTime()) applied to that thread *)
-| IXPause (k : N).               (* level.r<k> pause *)
+| IXPause (k : N)                (* level.r<k> pause *)
+| IGSet (v x : N)                (* level.|game.|parm.<name v> = x  (x >= 1) *)
+| IGPrint (v : N)                (* prints 9100 + 10 v + the value of that global variable (0 when it is not set) *)
+| IWaitMissing.                  (* waitthread <a label that does not exist>: the new instance is created, the start fails *)
 
 Inductive tstate := TRunning | TTiming | TWaiting.            (* threadState_e *)
 Inductive vstate := VRunning | VSuspended | VIdling | VDestroyed.   (* vmState_e *)
@@ -107,6 +111,7 @@ Record st := mkSt {
   cur : option N;
   depth : nat;
   refs : arr (option N);
+  gvars : arr N;
   nextid : N;
   nextscript : N;
   stack : list frame;
@@ -118,59 +123,61 @@ Record st := mkSt {
   oof : bool }.
 
 Definition set_threads (v : arr thread) (s : st) : st :=
-  mkSt v (vms s) (classes s) (tpool s) (vpool s) (cpool s) (chain s) (scripts s) (elems s) (mtime s) (dirty s) (scaled s) (lastclk s) (startclk s) (clock s) (cur s) (depth s) (refs s) (nextid s) (nextscript s) (stack s) (out s) (tlog s) (vlog s) (clog s) (ub s) (oof s).
+  mkSt v (vms s) (classes s) (tpool s) (vpool s) (cpool s) (chain s) (scripts s) (elems s) (mtime s) (dirty s) (scaled s) (lastclk s) (startclk s) (clock s) (cur s) (depth s) (refs s) (gvars s) (nextid s) (nextscript s) (stack s) (out s) (tlog s) (vlog s) (clog s) (ub s) (oof s).
 Definition set_vms (v : arr vm) (s : st) : st :=
-  mkSt (threads s) v (classes s) (tpool s) (vpool s) (cpool s) (chain s) (scripts s) (elems s) (mtime s) (dirty s) (scaled s) (lastclk s) (startclk s) (clock s) (cur s) (depth s) (refs s) (nextid s) (nextscript s) (stack s) (out s) (tlog s) (vlog s) (clog s) (ub s) (oof s).
+  mkSt (threads s) v (classes s) (tpool s) (vpool s) (cpool s) (chain s) (scripts s) (elems s) (mtime s) (dirty s) (scaled s) (lastclk s) (startclk s) (clock s) (cur s) (depth s) (refs s) (gvars s) (nextid s) (nextscript s) (stack s) (out s) (tlog s) (vlog s) (clog s) (ub s) (oof s).
 Definition set_classes (v : arr cls) (s : st) : st :=
-  mkSt (threads s) (vms s) v (tpool s) (vpool s) (cpool s) (chain s) (scripts s) (elems s) (mtime s) (dirty s) (scaled s) (lastclk s) (startclk s) (clock s) (cur s) (depth s) (refs s) (nextid s) (nextscript s) (stack s) (out s) (tlog s) (vlog s) (clog s) (ub s) (oof s).
+  mkSt (threads s) (vms s) v (tpool s) (vpool s) (cpool s) (chain s) (scripts s) (elems s) (mtime s) (dirty s) (scaled s) (lastclk s) (startclk s) (clock s) (cur s) (depth s) (refs s) (gvars s) (nextid s) (nextscript s) (stack s) (out s) (tlog s) (vlog s) (clog s) (ub s) (oof s).
 Definition set_tpool (v : list N) (s : st) : st :=
-  mkSt (threads s) (vms s) (classes s) v (vpool s) (cpool s) (chain s) (scripts s) (elems s) (mtime s) (dirty s) (scaled s) (lastclk s) (startclk s) (clock s) (cur s) (depth s) (refs s) (nextid s) (nextscript s) (stack s) (out s) (tlog s) (vlog s) (clog s) (ub s) (oof s).
+  mkSt (threads s) (vms s) (classes s) v (vpool s) (cpool s) (chain s) (scripts s) (elems s) (mtime s) (dirty s) (scaled s) (lastclk s) (startclk s) (clock s) (cur s) (depth s) (refs s) (gvars s) (nextid s) (nextscript s) (stack s) (out s) (tlog s) (vlog s) (clog s) (ub s) (oof s).
 Definition set_vpool (v : list N) (s : st) : st :=
-  mkSt (threads s) (vms s) (classes s) (tpool s) v (cpool s) (chain s) (scripts s) (elems s) (mtime s) (dirty s) (scaled s) (lastclk s) (startclk s) (clock s) (cur s) (depth s) (refs s) (nextid s) (nextscript s) (stack s) (out s) (tlog s) (vlog s) (clog s) (ub s) (oof s).
+  mkSt (threads s) (vms s) (classes s) (tpool s) v (cpool s) (chain s) (scripts s) (elems s) (mtime s) (dirty s) (scaled s) (lastclk s) (startclk s) (clock s) (cur s) (depth s) (refs s) (gvars s) (nextid s) (nextscript s) (stack s) (out s) (tlog s) (vlog s) (clog s) (ub s) (oof s).
 Definition set_cpool (v : list N) (s : st) : st :=
-  mkSt (threads s) (vms s) (classes s) (tpool s) (vpool s) v (chain s) (scripts s) (elems s) (mtime s) (dirty s) (scaled s) (lastclk s) (startclk s) (clock s) (cur s) (depth s) (refs s) (nextid s) (nextscript s) (stack s) (out s) (tlog s) (vlog s) (clog s) (ub s) (oof s).
+  mkSt (threads s) (vms s) (classes s) (tpool s) (vpool s) v (chain s) (scripts s) (elems s) (mtime s) (dirty s) (scaled s) (lastclk s) (startclk s) (clock s) (cur s) (depth s) (refs s) (gvars s) (nextid s) (nextscript s) (stack s) (out s) (tlog s) (vlog s) (clog s) (ub s) (oof s).
 Definition set_chain (v : list N) (s : st) : st :=
-  mkSt (threads s) (vms s) (classes s) (tpool s) (vpool s) (cpool s) v (scripts s) (elems s) (mtime s) (dirty s) (scaled s) (lastclk s) (startclk s) (clock s) (cur s) (depth s) (refs s) (nextid s) (nextscript s) (stack s) (out s) (tlog s) (vlog s) (clog s) (ub s) (oof s).
+  mkSt (threads s) (vms s) (classes s) (tpool s) (vpool s) (cpool s) v (scripts s) (elems s) (mtime s) (dirty s) (scaled s) (lastclk s) (startclk s) (clock s) (cur s) (depth s) (refs s) (gvars s) (nextid s) (nextscript s) (stack s) (out s) (tlog s) (vlog s) (clog s) (ub s) (oof s).
 Definition set_scripts (v : list N) (s : st) : st :=
-  mkSt (threads s) (vms s) (classes s) (tpool s) (vpool s) (cpool s) (chain s) v (elems s) (mtime s) (dirty s) (scaled s) (lastclk s) (startclk s) (clock s) (cur s) (depth s) (refs s) (nextid s) (nextscript s) (stack s) (out s) (tlog s) (vlog s) (clog s) (ub s) (oof s).
+  mkSt (threads s) (vms s) (classes s) (tpool s) (vpool s) (cpool s) (chain s) v (elems s) (mtime s) (dirty s) (scaled s) (lastclk s) (startclk s) (clock s) (cur s) (depth s) (refs s) (gvars s) (nextid s) (nextscript s) (stack s) (out s) (tlog s) (vlog s) (clog s) (ub s) (oof s).
 Definition set_elems (v : list (N * N)) (s : st) : st :=
-  mkSt (threads s) (vms s) (classes s) (tpool s) (vpool s) (cpool s) (chain s) (scripts s) v (mtime s) (dirty s) (scaled s) (lastclk s) (startclk s) (clock s) (cur s) (depth s) (refs s) (nextid s) (nextscript s) (stack s) (out s) (tlog s) (vlog s) (clog s) (ub s) (oof s).
+  mkSt (threads s) (vms s) (classes s) (tpool s) (vpool s) (cpool s) (chain s) (scripts s) v (mtime s) (dirty s) (scaled s) (lastclk s) (startclk s) (clock s) (cur s) (depth s) (refs s) (gvars s) (nextid s) (nextscript s) (stack s) (out s) (tlog s) (vlog s) (clog s) (ub s) (oof s).
 Definition set_mtime (v : N) (s : st) : st :=
-  mkSt (threads s) (vms s) (classes s) (tpool s) (vpool s) (cpool s) (chain s) (scripts s) (elems s) v (dirty s) (scaled s) (lastclk s) (startclk s) (clock s) (cur s) (depth s) (refs s) (nextid s) (nextscript s) (stack s) (out s) (tlog s) (vlog s) (clog s) (ub s) (oof s).
+  mkSt (threads s) (vms s) (classes s) (tpool s) (vpool s) (cpool s) (chain s) (scripts s) (elems s) v (dirty s) (scaled s) (lastclk s) (startclk s) (clock s) (cur s) (depth s) (refs s) (gvars s) (nextid s) (nextscript s) (stack s) (out s) (tlog s) (vlog s) (clog s) (ub s) (oof s).
 Definition set_dirty (v : bool) (s : st) : st :=
-  mkSt (threads s) (vms s) (classes s) (tpool s) (vpool s) (cpool s) (chain s) (scripts s) (elems s) (mtime s) v (scaled s) (lastclk s) (startclk s) (clock s) (cur s) (depth s) (refs s) (nextid s) (nextscript s) (stack s) (out s) (tlog s) (vlog s) (clog s) (ub s) (oof s).
+  mkSt (threads s) (vms s) (classes s) (tpool s) (vpool s) (cpool s) (chain s) (scripts s) (elems s) (mtime s) v (scaled s) (lastclk s) (startclk s) (clock s) (cur s) (depth s) (refs s) (gvars s) (nextid s) (nextscript s) (stack s) (out s) (tlog s) (vlog s) (clog s) (ub s) (oof s).
 Definition set_scaled (v : N) (s : st) : st :=
-  mkSt (threads s) (vms s) (classes s) (tpool s) (vpool s) (cpool s) (chain s) (scripts s) (elems s) (mtime s) (dirty s) v (lastclk s) (startclk s) (clock s) (cur s) (depth s) (refs s) (nextid s) (nextscript s) (stack s) (out s) (tlog s) (vlog s) (clog s) (ub s) (oof s).
+  mkSt (threads s) (vms s) (classes s) (tpool s) (vpool s) (cpool s) (chain s) (scripts s) (elems s) (mtime s) (dirty s) v (lastclk s) (startclk s) (clock s) (cur s) (depth s) (refs s) (gvars s) (nextid s) (nextscript s) (stack s) (out s) (tlog s) (vlog s) (clog s) (ub s) (oof s).
 Definition set_lastclk (v : N) (s : st) : st :=
-  mkSt (threads s) (vms s) (classes s) (tpool s) (vpool s) (cpool s) (chain s) (scripts s) (elems s) (mtime s) (dirty s) (scaled s) v (startclk s) (clock s) (cur s) (depth s) (refs s) (nextid s) (nextscript s) (stack s) (out s) (tlog s) (vlog s) (clog s) (ub s) (oof s).
+  mkSt (threads s) (vms s) (classes s) (tpool s) (vpool s) (cpool s) (chain s) (scripts s) (elems s) (mtime s) (dirty s) (scaled s) v (startclk s) (clock s) (cur s) (depth s) (refs s) (gvars s) (nextid s) (nextscript s) (stack s) (out s) (tlog s) (vlog s) (clog s) (ub s) (oof s).
 Definition set_startclk (v : N) (s : st) : st :=
-  mkSt (threads s) (vms s) (classes s) (tpool s) (vpool s) (cpool s) (chain s) (scripts s) (elems s) (mtime s) (dirty s) (scaled s) (lastclk s) v (clock s) (cur s) (depth s) (refs s) (nextid s) (nextscript s) (stack s) (out s) (tlog s) (vlog s) (clog s) (ub s) (oof s).
+  mkSt (threads s) (vms s) (classes s) (tpool s) (vpool s) (cpool s) (chain s) (scripts s) (elems s) (mtime s) (dirty s) (scaled s) (lastclk s) v (clock s) (cur s) (depth s) (refs s) (gvars s) (nextid s) (nextscript s) (stack s) (out s) (tlog s) (vlog s) (clog s) (ub s) (oof s).
 Definition set_clock (v : N) (s : st) : st :=
-  mkSt (threads s) (vms s) (classes s) (tpool s) (vpool s) (cpool s) (chain s) (scripts s) (elems s) (mtime s) (dirty s) (scaled s) (lastclk s) (startclk s) v (cur s) (depth s) (refs s) (nextid s) (nextscript s) (stack s) (out s) (tlog s) (vlog s) (clog s) (ub s) (oof s).
+  mkSt (threads s) (vms s) (classes s) (tpool s) (vpool s) (cpool s) (chain s) (scripts s) (elems s) (mtime s) (dirty s) (scaled s) (lastclk s) (startclk s) v (cur s) (depth s) (refs s) (gvars s) (nextid s) (nextscript s) (stack s) (out s) (tlog s) (vlog s) (clog s) (ub s) (oof s).
 Definition set_cur (v : option N) (s : st) : st :=
-  mkSt (threads s) (vms s) (classes s) (tpool s) (vpool s) (cpool s) (chain s) (scripts s) (elems s) (mtime s) (dirty s) (scaled s) (lastclk s) (startclk s) (clock s) v (depth s) (refs s) (nextid s) (nextscript s) (stack s) (out s) (tlog s) (vlog s) (clog s) (ub s) (oof s).
+  mkSt (threads s) (vms s) (classes s) (tpool s) (vpool s) (cpool s) (chain s) (scripts s) (elems s) (mtime s) (dirty s) (scaled s) (lastclk s) (startclk s) (clock s) v (depth s) (refs s) (gvars s) (nextid s) (nextscript s) (stack s) (out s) (tlog s) (vlog s) (clog s) (ub s) (oof s).
 Definition set_depth (v : nat) (s : st) : st :=
-  mkSt (threads s) (vms s) (classes s) (tpool s) (vpool s) (cpool s) (chain s) (scripts s) (elems s) (mtime s) (dirty s) (scaled s) (lastclk s) (startclk s) (clock s) (cur s) v (refs s) (nextid s) (nextscript s) (stack s) (out s) (tlog s) (vlog s) (clog s) (ub s) (oof s).
+  mkSt (threads s) (vms s) (classes s) (tpool s) (vpool s) (cpool s) (chain s) (scripts s) (elems s) (mtime s) (dirty s) (scaled s) (lastclk s) (startclk s) (clock s) (cur s) v (refs s) (gvars s) (nextid s) (nextscript s) (stack s) (out s) (tlog s) (vlog s) (clog s) (ub s) (oof s).
 Definition set_refs (v : arr (option N)) (s : st) : st :=
-  mkSt (threads s) (vms s) (classes s) (tpool s) (vpool s) (cpool s) (chain s) (scripts s) (elems s) (mtime s) (dirty s) (scaled s) (lastclk s) (startclk s) (clock s) (cur s) (depth s) v (nextid s) (nextscript s) (stack s) (out s) (tlog s) (vlog s) (clog s) (ub s) (oof s).
+  mkSt (threads s) (vms s) (classes s) (tpool s) (vpool s) (cpool s) (chain s) (scripts s) (elems s) (mtime s) (dirty s) (scaled s) (lastclk s) (startclk s) (clock s) (cur s) (depth s) v (gvars s) (nextid s) (nextscript s) (stack s) (out s) (tlog s) (vlog s) (clog s) (ub s) (oof s).
+Definition set_gvars (v : arr N) (s : st) : st :=
+  mkSt (threads s) (vms s) (classes s) (tpool s) (vpool s) (cpool s) (chain s) (scripts s) (elems s) (mtime s) (dirty s) (scaled s) (lastclk s) (startclk s) (clock s) (cur s) (depth s) (refs s) v (nextid s) (nextscript s) (stack s) (out s) (tlog s) (vlog s) (clog s) (ub s) (oof s).
 Definition set_nextid (v : N) (s : st) : st :=
-  mkSt (threads s) (vms s) (classes s) (tpool s) (vpool s) (cpool s) (chain s) (scripts s) (elems s) (mtime s) (dirty s) (scaled s) (lastclk s) (startclk s) (clock s) (cur s) (depth s) (refs s) v (nextscript s) (stack s) (out s) (tlog s) (vlog s) (clog s) (ub s) (oof s).
+  mkSt (threads s) (vms s) (classes s) (tpool s) (vpool s) (cpool s) (chain s) (scripts s) (elems s) (mtime s) (dirty s) (scaled s) (lastclk s) (startclk s) (clock s) (cur s) (depth s) (refs s) (gvars s) v (nextscript s) (stack s) (out s) (tlog s) (vlog s) (clog s) (ub s) (oof s).
 Definition set_nextscript (v : N) (s : st) : st :=
-  mkSt (threads s) (vms s) (classes s) (tpool s) (vpool s) (cpool s) (chain s) (scripts s) (elems s) (mtime s) (dirty s) (scaled s) (lastclk s) (startclk s) (clock s) (cur s) (depth s) (refs s) (nextid s) v (stack s) (out s) (tlog s) (vlog s) (clog s) (ub s) (oof s).
+  mkSt (threads s) (vms s) (classes s) (tpool s) (vpool s) (cpool s) (chain s) (scripts s) (elems s) (mtime s) (dirty s) (scaled s) (lastclk s) (startclk s) (clock s) (cur s) (depth s) (refs s) (gvars s) (nextid s) v (stack s) (out s) (tlog s) (vlog s) (clog s) (ub s) (oof s).
 Definition set_stack (v : list frame) (s : st) : st :=
-  mkSt (threads s) (vms s) (classes s) (tpool s) (vpool s) (cpool s) (chain s) (scripts s) (elems s) (mtime s) (dirty s) (scaled s) (lastclk s) (startclk s) (clock s) (cur s) (depth s) (refs s) (nextid s) (nextscript s) v (out s) (tlog s) (vlog s) (clog s) (ub s) (oof s).
+  mkSt (threads s) (vms s) (classes s) (tpool s) (vpool s) (cpool s) (chain s) (scripts s) (elems s) (mtime s) (dirty s) (scaled s) (lastclk s) (startclk s) (clock s) (cur s) (depth s) (refs s) (gvars s) (nextid s) (nextscript s) v (out s) (tlog s) (vlog s) (clog s) (ub s) (oof s).
 Definition set_out (v : list N) (s : st) : st :=
-  mkSt (threads s) (vms s) (classes s) (tpool s) (vpool s) (cpool s) (chain s) (scripts s) (elems s) (mtime s) (dirty s) (scaled s) (lastclk s) (startclk s) (clock s) (cur s) (depth s) (refs s) (nextid s) (nextscript s) (stack s) v (tlog s) (vlog s) (clog s) (ub s) (oof s).
+  mkSt (threads s) (vms s) (classes s) (tpool s) (vpool s) (cpool s) (chain s) (scripts s) (elems s) (mtime s) (dirty s) (scaled s) (lastclk s) (startclk s) (clock s) (cur s) (depth s) (refs s) (gvars s) (nextid s) (nextscript s) (stack s) v (tlog s) (vlog s) (clog s) (ub s) (oof s).
 Definition set_tlog (v : list N) (s : st) : st :=
-  mkSt (threads s) (vms s) (classes s) (tpool s) (vpool s) (cpool s) (chain s) (scripts s) (elems s) (mtime s) (dirty s) (scaled s) (lastclk s) (startclk s) (clock s) (cur s) (depth s) (refs s) (nextid s) (nextscript s) (stack s) (out s) v (vlog s) (clog s) (ub s) (oof s).
+  mkSt (threads s) (vms s) (classes s) (tpool s) (vpool s) (cpool s) (chain s) (scripts s) (elems s) (mtime s) (dirty s) (scaled s) (lastclk s) (startclk s) (clock s) (cur s) (depth s) (refs s) (gvars s) (nextid s) (nextscript s) (stack s) (out s) v (vlog s) (clog s) (ub s) (oof s).
 Definition set_vlog (v : list N) (s : st) : st :=
-  mkSt (threads s) (vms s) (classes s) (tpool s) (vpool s) (cpool s) (chain s) (scripts s) (elems s) (mtime s) (dirty s) (scaled s) (lastclk s) (startclk s) (clock s) (cur s) (depth s) (refs s) (nextid s) (nextscript s) (stack s) (out s) (tlog s) v (clog s) (ub s) (oof s).
+  mkSt (threads s) (vms s) (classes s) (tpool s) (vpool s) (cpool s) (chain s) (scripts s) (elems s) (mtime s) (dirty s) (scaled s) (lastclk s) (startclk s) (clock s) (cur s) (depth s) (refs s) (gvars s) (nextid s) (nextscript s) (stack s) (out s) (tlog s) v (clog s) (ub s) (oof s).
 Definition set_clog (v : list N) (s : st) : st :=
-  mkSt (threads s) (vms s) (classes s) (tpool s) (vpool s) (cpool s) (chain s) (scripts s) (elems s) (mtime s) (dirty s) (scaled s) (lastclk s) (startclk s) (clock s) (cur s) (depth s) (refs s) (nextid s) (nextscript s) (stack s) (out s) (tlog s) (vlog s) v (ub s) (oof s).
+  mkSt (threads s) (vms s) (classes s) (tpool s) (vpool s) (cpool s) (chain s) (scripts s) (elems s) (mtime s) (dirty s) (scaled s) (lastclk s) (startclk s) (clock s) (cur s) (depth s) (refs s) (gvars s) (nextid s) (nextscript s) (stack s) (out s) (tlog s) (vlog s) v (ub s) (oof s).
 Definition set_ub (v : bool) (s : st) : st :=
-  mkSt (threads s) (vms s) (classes s) (tpool s) (vpool s) (cpool s) (chain s) (scripts s) (elems s) (mtime s) (dirty s) (scaled s) (lastclk s) (startclk s) (clock s) (cur s) (depth s) (refs s) (nextid s) (nextscript s) (stack s) (out s) (tlog s) (vlog s) (clog s) v (oof s).
+  mkSt (threads s) (vms s) (classes s) (tpool s) (vpool s) (cpool s) (chain s) (scripts s) (elems s) (mtime s) (dirty s) (scaled s) (lastclk s) (startclk s) (clock s) (cur s) (depth s) (refs s) (gvars s) (nextid s) (nextscript s) (stack s) (out s) (tlog s) (vlog s) (clog s) v (oof s).
 Definition set_oof (v : bool) (s : st) : st :=
-  mkSt (threads s) (vms s) (classes s) (tpool s) (vpool s) (cpool s) (chain s) (scripts s) (elems s) (mtime s) (dirty s) (scaled s) (lastclk s) (startclk s) (clock s) (cur s) (depth s) (refs s) (nextid s) (nextscript s) (stack s) (out s) (tlog s) (vlog s) (clog s) (ub s) v.
+  mkSt (threads s) (vms s) (classes s) (tpool s) (vpool s) (cpool s) (chain s) (scripts s) (elems s) (mtime s) (dirty s) (scaled s) (lastclk s) (startclk s) (clock s) (cur s) (depth s) (refs s) (gvars s) (nextid s) (nextscript s) (stack s) (out s) (tlog s) (vlog s) (clog s) (ub s) v.
 
 Definition th (s : st) (t : N) : thread := get (threads s) t.
 Definition vmof (s : st) (v : N) : vm := get (vms s) v.
@@ -429,9 +436,10 @@ Fixpoint free_all (f : nat) (s : st) : st :=
       end
   end.
 
-(* ScriptMaster::ClearAll = Reset: all instances, then all programs *)
+(* ScriptMaster::ClearAll = Reset: all instances, then the variables of game, level and parm (they
+   are named by entries of the dictionary that is reset), then all programs *)
 Definition reset (s : st) : st :=
-  set_scripts [] (free_all (S (length (cpool s))) s).
+  set_scripts [] (set_refs (aempty None) (set_gvars (aempty 0) (free_all (S (length (cpool s))) s))).
 
 (* ScriptMaster::DeleteProgramScript: the instances of the script are collected first (weak
    references, in the order of the director's chain), then each one that still exists is deleted *)
@@ -531,6 +539,16 @@ Definition exec_instr (t : N) (i : instr) (r : list instr) (s0 : st) : st :=
   | IXWait k d => match deref k s with Some b => wait_on b d s | None => s end
   | IXWaitFrame k => match deref k s with Some b => wait_on b (clock s - startclk s) s | None => s end
   | IXPause k => match deref k s with Some b => pause_on b s | None => s end
+  | IGSet v x => set_gvars (set (gvars s) v x) s
+  | IGPrint v => set_out ((9100 + 10 * v + get (gvars s) v) :: out s) s
+  | IWaitMissing =>
+      (* ScriptMaster::CreateScriptThread(script, self, label): new ScriptClass; the label is not found:
+         the handler deletes the thread-less instance again and rethrows (a script error: the caller
+         carries on; Register was not reached) *)
+      match current_script s with
+      | Some k => let '(c, s1) := new_class k s in destroy_class (dfuel s1) c s1
+      | None => flag_ub s
+      end
   end.
 
 Definition step (s : st) : st :=
@@ -605,11 +623,12 @@ Inductive op :=
 | OExecute                    (* ScriptContext::Execute() *)
 | OReset                      (* director.Reset() between two frames *)
 | ORecompile (k : N)          (* recompile script k between two frames *)
+| OStartMissing (k : N)       (* ExecuteThread(script k, <a label that does not exist>): refused *)
 | ODestroy.                   (* destruction of the context *)
 
 Definition init (c : N) : st :=
   mkSt (aempty (mkT false TRunning None None)) (aempty (mkV None VDestroyed [])) (aempty (mkC 0 []))
-       [] [] [] [] [] [] 0 false 0 c c c None O (aempty None) 0 0 [] [] [] [] [] false false.
+       [] [] [] [] [] [] 0 false 0 c c c None O (aempty None) (aempty 0) 0 0 [] [] [] [] [] false false.
 
 Definition host_step (s0 : st) (o : op) : st :=
   if ub s0 || oof s0 then s0 else      (* after an error the model says nothing any more *)
@@ -631,6 +650,8 @@ Definition host_step (s0 : st) (o : op) : st :=
       run_stack (sfuel s2) s2
   | OReset => reset s
   | ORecompile k => recompile k s
+  | OStartMissing k =>
+      if memb k (scripts s) then let '(c, s1) := new_class k s in destroy_class (dfuel s1) c s1 else s
   | ODestroy => reset s
   end.
 
